@@ -8,6 +8,7 @@
   C18.6 the public twin is built from copies of the private packet's own public terms
   C18.7 issuer key id / issuer fingerprint / recipient key id are those of the operating key itself
   C18.8 every key packet rebuilt from another one (pubkey, __copy__, sub-key conversion) takes created / pkalg / keymaterial from ONE source
+  C18.10 widths computed from bit lengths (ECPoint.from_values, MPI.byte_length) are ceilings at 255/256/384/521 bits; ECPoint / MPI writer-reader pairs agree (finite-point evaluation, sa/ceval.py)
   C18.9 __copy__ of the key material classes and of the field objects they serialise carries every attribute the serialiser reads
 
 Every rule is decided on interpreter values (byte terms, call / store events, return values); nothing compares source text,
@@ -145,6 +146,114 @@ def check_fingerprint_cuts(rep, prog):
     rep.ok('C18.4', 'package', '%d function(s) touching a fingerprint and slicing scanned, %d direct cut(s)' % (scanned, cuts))
 
 
+def _ceil8(bits):
+    return -(-bits // 8)
+
+
+def check_widths(rep, prog, rid):
+    """Octet widths on the way into the fingerprint input are CEILINGS of the bit length, and what is written re-parses:
+    ECPoint.from_values / to_mpibytes / __len__ / parse and MPI.byte_length / to_mpibytes / parse are evaluated by the checker's
+    own finite-point evaluator (sa/ceval.py; nothing of the repository runs) at the curve sizes 255, 256, 384 and 521 (the one
+    size that is not a multiple of 8) and at coordinates with and without leading zero octets; every ECPoint built for a key's
+    own public point takes the width of the key's own curve."""
+    from sa.ceval import Evaluator, VBuf, ClassRef, NoEval, Raised, Diverged
+    E = Evaluator(prog)
+    EP = prog.cls('pgpy.packet.fields', 'ECPoint')
+    MPI = prog.cls('pgpy.packet.types', 'MPI')
+    fmt = prog.cls('pgpy.constants', 'ECPointFormat').enum_members()
+    fv = EP.find_method('from_values')
+    if fv is None or 'Standard' not in fmt or 'Native' not in fmt:
+        raise AnalysisError('ECPoint.from_values / ECPointFormat vanished')
+    rep.saw(fn=fv)
+
+    def guarded(construct, stmt, what, fn, where):
+        try:
+            ok, found, expected = fn()
+        except Raised as ex:
+            rep.violation(rid, construct, stmt, '%s: the evaluated code raises %s' % (what, ex), where=where, found=str(ex))
+            return
+        except (NoEval, Diverged) as ex:
+            raise AnalysisError('%s: %s outside the evaluator (%s)' % (construct, stmt, ex))
+        rep.check(ok, rid, construct, stmt, what, where=where, expected=expected, found=found)
+
+    def ival(v):
+        return getattr(v, 'ival', v)
+
+    # 1. coordinate width of a point made from a curve size
+    for bits in (255, 256, 384, 521):
+        def f(bits=bits):
+            pt = E.method(ClassRef(EP), 'from_values', bits, fmt['Standard'], E.new(MPI, 1), E.new(MPI, 1))
+            return pt.attrs.get('bytelen') == _ceil8(bits), pt.attrs.get('bytelen'), _ceil8(bits)
+        guarded('ECPoint.from_values', 'coordinate width for a %d-bit curve' % bits,
+                'the coordinate width of an EC point is ceil(bits / 8) octets (fixed-width encoding; 521 bits need 66)', f, fv.where)
+    # 2. what from_values builds is written fixed-width, has the length __len__ reports (publen!) and re-parses to the same point
+    for bits in (256, 384, 521):
+        full, small = (1 << (bits - 1)) | 5, 7
+        for tag, x, y in (('x full, y short', full, small), ('x short, y full', small, full), ('both full', full, full - 2)):
+            def f(bits=bits, x=x, y=y):
+                pt = E.method(ClassRef(EP), 'from_values', bits, fmt['Standard'], E.new(MPI, x), E.new(MPI, y))
+                raw = E.tobytes(E.method(pt, 'to_mpibytes'))
+                back = E.new(EP, VBuf(raw))
+                got = (len(raw), E.length(pt), ival(back.attrs.get('x')), ival(back.attrs.get('y')), back.attrs.get('bytelen'))
+                want = (3 + 2 * _ceil8(bits), 3 + 2 * _ceil8(bits), x, y, _ceil8(bits))
+                return got == want, got, want
+            guarded('ECPoint.to_mpibytes', '%d-bit point, %s: written, measured, re-parsed' % (bits, tag),
+                    'an EC point is written as 04 || X || Y with both coordinates ceil(bits / 8) octets wide; its length and its re-parse agree',
+                    f, EP.where)
+    for n in (32, 56):
+        def f(n=n):
+            x = bytes([0x40]) + bytes(range(1, n))
+            pt = E.method(ClassRef(EP), 'from_values', 8 * n, fmt['Native'], x[1:] if False else x)
+            raw = E.tobytes(E.method(pt, 'to_mpibytes'))
+            back = E.new(EP, VBuf(raw))
+            bx = back.attrs.get('x')
+            got = (len(raw), E.length(pt), bytes(E.tobytes(bx)) if not isinstance(bx, bytes) else bx)
+            want = (3 + n, 3 + n, x)
+            return got == want, got, want
+        guarded('ECPoint.to_mpibytes', 'native point of %d octets: written, measured, re-parsed' % n,
+                'a native-format point is written as the format octet and the raw octets; its length and its re-parse agree', f, EP.where)
+    # 3. multiprecision integers: width = ceil(bit length / 8), written = 2-octet bit count + that many octets, re-parsed = the value
+    bl = MPI.find_method('byte_length')
+    for bits in (1, 7, 8, 9, 255, 256, 521, 2048):
+        def f(bits=bits):
+            v = (1 << (bits - 1)) | 1
+            m = E.new(MPI, v)
+            raw = E.tobytes(E.method(m, 'to_mpibytes'))
+            back = E.new(MPI, VBuf(raw))
+            got = (E.method(m, 'byte_length'), E.length(m), raw, ival(back))
+            want = (_ceil8(bits), _ceil8(bits) + 2, bits.to_bytes(2, 'big') + v.to_bytes(_ceil8(bits), 'big'), v)
+            return got == want, got, want
+        guarded('MPI.to_mpibytes', '%d-bit integer: width, length, written, re-parsed' % bits,
+                'an MPI is its bit count in two octets and the value in ceil(bits / 8) octets', f, bl.where if bl is not None else MPI.where)
+    # 4. every public point a key builds for itself takes the width of the key's own curve
+    fields = prog.module('pgpy.packet.fields')
+    sites = 0
+    for K in fields.classes.values():
+        if not any(getattr(b, 'name', None) == 'PubKey' for b in K.mro()):
+            continue
+        for m in K.methods.values():
+            if not any(isinstance(n, ast.Attribute) and n.attr == 'from_values' for n in ast.walk(m.node)) or not m.params:
+                continue
+            me = m.params[0]
+            for s in Interp(prog, Scenario(inline=noinline, join_unknown=True)).run(m):
+                pts = [v for p, v, l, _ in s.stores if p == me + '.p']
+                for c in s.calls:
+                    if c[0] != 'ECPoint.from_values':
+                        continue
+                    b = families._bind_call(fv, c)
+                    text = 'ECPoint.from_values(%s)' % ', '.join(list(c[1]) + ['%s=%s' % kv for kv in c[2].items()])
+                    if text not in pts:
+                        continue
+                    sites += 1
+                    # the curve of the object at that point: `self.oid`, or the value just stored into it (stores are forwarded)
+                    own = [me + '.oid'] + [v for p, v, l, _ in s.stores if p == me + '.oid' and l <= c[3]]
+                    rep.check(b.get(fv.params[1]) in [o + '.key_size' for o in own], rid, m.qualname, 'own public point: width from %s' % b.get(fv.params[1]),
+                              'the public point of a key is as wide as the key\'s own curve', where='%s:%d' % (m.module.relpath, c[3]),
+                              expected=me + '.oid.key_size', found=b.get(fv.params[1]))
+    if sites < 3:
+        raise AnalysisError('only %d ECPoint.from_values site(s) building a key\'s own public point found' % sites)
+
+
 def run(rep, prog, tier):
     rep.rule('C18.1', 'fingerprint hash input = RFC 4880 12.2 layout under SHA-1', floor=2)
     rep.rule('C18.2', 'fingerprint terms agree with the exported public-key packet body; packet version is 4', floor=4)
@@ -154,6 +263,7 @@ def run(rep, prog, tier):
     rep.rule('C18.7', 'issuer key id, issuer fingerprint and recipient key id written are those of the operating key itself', floor=8)
     rep.rule('C18.8', 'a key packet rebuilt from another takes creation time, algorithm and key material from that one packet', floor=3)
     rep.rule('C18.9', 'copies of public key material and of its field objects carry every attribute their serialiser reads', floor=8)
+    rep.rule('C18.10', 'octet widths entering the fingerprint input are ceilings of the bit length; EC points and MPIs re-parse to what was written', floor=20)
     rep.rule('C18.5', 'creation time is serialised with a UTC-correct idiom wherever it is hashed or exported', floor=2)
     rep.assume('int_to_bytes(x, n) emits max(n, byte_length(x), 1) big-endian octets (pgpy.types.PGPObject; checked under C09)')
 
@@ -304,6 +414,7 @@ def run(rep, prog, tier):
     families.check_ids_rooted_at_self(rep, prog, 'C18.7')
     families.check_key_packet_rebuilds(rep, prog, 'C18.8')
     families.check_copy_carries_serialised(rep, prog, 'C18.9')
+    check_widths(rep, prog, 'C18.10')
     # C18.5 time idiom
     check_time_sites(rep, prog, 'C18.5', only=('PubKeyV4.fingerprint', 'PubKeyV4.__bytearray__'))
 
